@@ -31,6 +31,9 @@ site: http://bugseng.com/products/ppl/ . */
 #include "Scalar_Products_inlines.hh"
 #include "Temp_defs.hh"
 #include "math_utilities_defs.hh"
+#ifdef BUGSENG_PPL_VERIF
+#include "verif_hooks.hh"
+#endif
 
 #include <cstddef>
 #include <climits>
@@ -371,6 +374,9 @@ Polyhedron::conversion(Source_Linear_System& source,
                        Dest_Linear_System& dest,
                        Bit_Matrix& sat,
                        dimension_type num_lines_or_equalities) {
+#ifdef BUGSENG_PPL_VERIF
+  PPL_VERIF_REACH(POLY_CONVERSION);
+#endif
   typedef typename Dest_Linear_System::row_type dest_row_type;
   typedef typename Source_Linear_System::row_type source_row_type;
 
